@@ -157,6 +157,34 @@ impl CfgSpec {
         Ok(())
     }
 
+    /// Every field that lies outside its documented range.
+    pub fn offending_fields(&self, experimental: bool) -> Vec<&'static str> {
+        let mut v = vec![];
+        let mut c = self.clone();
+        // test field by field against a valid background
+        let d = CfgSpec::default();
+        macro_rules! probe {
+            ($f:ident) => {{
+                let mut t = d.clone();
+                t.$f = c.$f.clone();
+                if let Err(n) = t.in_documented_range(experimental) {
+                    v.push(n);
+                }
+            }};
+        }
+        probe!(block_size);
+        probe!(fixed_max_order);
+        probe!(order_sel);
+        probe!(lpc_order);
+        probe!(quant_precision);
+        probe!(use_direct_mse);
+        probe!(mae_steps);
+        probe!(window);
+        probe!(max_parameter);
+        c.block_size = 0;
+        v
+    }
+
     pub fn window_alpha(&self) -> Option<f32> {
         self.window.map(f32::from_bits)
     }
